@@ -8,6 +8,7 @@ SETS = {
     "mixed": ["set-all", "set", "жа", "жб", "h", "help-me", "s", "中文", "😀x"],
     "grouped": ["hello", "stop", "get-led", "exit", "get-adc", "go"],
     "tiny": ["ab", "aé", "b"],
+    "wide": ["led-開", "led-閉", "go-😀", "go-😁", "€a", "€"],
 }
 
 KEY_BYTES = {
